@@ -36,6 +36,16 @@ Definition deps W j := j_deps (spec W j).
 Definition njobs W := length (w_jobs W).
 Definition total W t := nth t (w_tokens W) 0%nat.
 
+(* what a job asks of token t in total, and whether every token can ever provide what the job asks *)
+Fixpoint sumreq (ds : list dep) (t : nat) : nat :=
+  match ds with
+  | [] => 0
+  | DTok t' c :: r => ((if Nat.eqb t' t then c else 0) + sumreq r t)%nat
+  | _ :: r => sumreq r t
+  end.
+Definition fits (W : workload) (j : nat) : bool :=
+  forallb (fun d => match d with DTok t _ => (sumreq (deps W j) t <=? total W t)%nat | DJob _ => true end) (deps W j).
+
 (* ------------------------------------------------------------------ state *)
 Inductive jstate := UNSCHEDULED | WAITING | READY | RUNNING | DONE | ERROR.   (* SCHEDULED is never assigned here *)
 Inductive dstatus := DWAIT | DOK | DFAIL.
@@ -82,9 +92,11 @@ Definition init (W : workload) : state :=
   {| jobs := fun _ => jst0; avail := total W; unfinished := 0; failed := []; reg := fun _ => None;
      queue := []; wst := WNone |}.
 
-Record fixes := { fx2 : bool; fx3 : bool; fx4 : bool }.
-Definition all_fixed := {| fx2 := true; fx3 := true; fx4 := true |}.
-Definition no_fix := {| fx2 := false; fx3 := false; fx4 := false |}.
+(* fx5: a job whose requests on a token exceed its total is refused at submission;
+   fx6: a failed dependency only cancels a job that has not started *)
+Record fixes := { fx2 : bool; fx3 : bool; fx4 : bool; fx5 : bool; fx6 : bool }.
+Definition all_fixed := {| fx2 := true; fx3 := true; fx4 := true; fx5 := true; fx6 := true |}.
+Definition no_fix := {| fx2 := false; fx3 := false; fx4 := false; fx5 := false; fx6 := false |}.
 
 (* ------------------------------------------------------------------ small helpers *)
 Definition upd {A} (f : nat -> A) (j : nat) (v : A) : nat -> A := fun x => if Nat.eqb x j then v else f x.
@@ -157,26 +169,26 @@ Definition set_event_l (r : jst) : jst * bool :=
 
 (* Job.dependencychanged followed by `dependency.currentstatus = status` (job-local part);
    the boolean tells whether a wake-up of the job's coroutine became ready *)
-Definition depchanged_l (f3 : bool) (r : jst) (i : nat) (old new : dstatus) : jst * bool :=
+Definition depchanged_l (f3 f6 : bool) (r : jst) (i : nat) (old new : dstatus) : jst * bool :=
   let r1 := w_cur (w_uns r (uns r - (okval new - okval old))) (replace_nth i new (cur r)) in
   let '(r2, w2) :=
-    if dstatus_eqb new DFAIL && negb (finished (st r1))
+    if dstatus_eqb new DFAIL && (if f6 then notstarted (st r1) else negb (finished (st r1)))
     then set_event_l (w_fdep (w_st r1 ERROR) true) else (r1, false) in
   let '(r3, w3) :=
     if (uns r2 =? 0) && (negb f3 || notstarted (st r2))
     then set_event_l (w_st r2 READY) else (r2, false) in
   (r3, w2 || w3).
 
-Definition check_l (f3 : bool) (r : jst) (i : nat) (new : dstatus) : jst * bool :=
+Definition check_l (f3 f6 : bool) (r : jst) (i : nat) (new : dstatus) : jst * bool :=
   match nth_error (cur r) i with
-  | Some old => if dstatus_eqb new old then (r, false) else depchanged_l f3 r i old new
+  | Some old => if dstatus_eqb new old then (r, false) else depchanged_l f3 f6 r i old new
   | None => (r, false)
   end.
 
 Definition check (W : workload) (fx : fixes) (s : state) (j i : nat) : state :=
   match nth_error (deps W j) i with
   | Some d =>
-      let '(r, wake) := check_l (fx3 fx) (jobs s j) i (dep_status s d) in
+      let '(r, wake) := check_l (fx3 fx) (fx6 fx) (jobs s j) i (dep_status s d) in
       let s1 := setjob s j r in
       if wake then enqueue s1 (CStep j) else s1
   | None => s
@@ -224,10 +236,10 @@ Definition commit (s : state) (j : nat) (p : jst * bool) : state :=
 
 (* registration loop of aio_submit: dependency.check() for each dependency in turn.  The
    coroutine is running, so Event.set() wakes nobody: the wake-up flag is dropped. *)
-Fixpoint reg_l (f3 : bool) (r : jst) (news : list dstatus) (i : nat) : jst :=
+Fixpoint reg_l (f3 f6 : bool) (r : jst) (news : list dstatus) (i : nat) : jst :=
   match news with
   | [] => r
-  | n :: rest => reg_l f3 (fst (check_l f3 r i n)) rest (S i)
+  | n :: rest => reg_l f3 f6 (fst (check_l f3 f6 r i n)) rest (S i)
   end.
 
 (* the final state given by an adopted process: `DONE if code == 0 else ERROR`, then the marker check *)
@@ -241,12 +253,12 @@ Definition adopted (W : workload) (j : nat) : option jstate := option_map adopt_
 
 (* aio_submit up to its first suspension; when a process is already running for the job
    (ad = true) the state becomes RUNNING and the coroutine waits for that process *)
-Definition spawn_l (f3 : bool) (marker : bool) (ad : bool) (r : jst) (news : list dstatus) : jst * bool :=
+Definition spawn_l (f3 f6 : bool) (marker : bool) (ad : bool) (r : jst) (news : list dstatus) : jst * bool :=
   let r0 := w_st (w_ev r false) WAITING in
   let r1 :=
     match news with
     | [] => w_st (w_ev r0 true) READY
-    | _ => reg_l f3 (w_cur (w_uns r0 (Z.of_nat (length news))) (repeat DWAIT (length news))) news 0
+    | _ => reg_l f3 f6 (w_cur (w_uns r0 (Z.of_nat (length news))) (repeat DWAIT (length news))) news 0
     end in
   let r2 := if marker then w_st r1 DONE else r1 in
   if ad then (w_pc (w_st r2 RUNNING) (PExt AAdopt), false) else main_loop_l r2.
@@ -254,7 +266,7 @@ Definition spawn_l (f3 : bool) (marker : bool) (ad : bool) (r : jst) (news : lis
 Definition is_some_b {A} (o : option A) : bool := match o with Some _ => true | None => false end.
 
 Definition run_spawn (W : workload) (fx : fixes) (s : state) (j : nat) : state :=
-  commit s j (spawn_l (fx3 fx) (j_marker (spec W j)) (is_some_b (j_adopt (spec W j))) (jobs s j)
+  commit s j (spawn_l (fx3 fx) (fx6 fx) (j_marker (spec W j)) (is_some_b (j_adopt (spec W j))) (jobs s j)
                       (map (dep_status s) (deps W j))).
 
 (* the adopted process has ended: `job.state = DONE if code == 0 else ERROR`, marker check, loop *)
@@ -390,7 +402,7 @@ Definition step_gen (W : workload) (fx : fixes) (s : state) (l : label) : option
   match l with
   | LSubmit j =>
       if (j <? njobs W)%nat && (match pc (jobs s j) with PNot => true | _ => false end)
-         && forallb (dep_submitted s) (deps W j)
+         && forallb (dep_submitted s) (deps W j) && (negb (fx5 fx) || fits W j)
       then Some (submit W fx s j) else None
   | LRun n =>
       match nth_error (queue s) n with
